@@ -50,8 +50,8 @@ SPECS['C05'] = dict(
 SPECS['C14'] = dict(
     jobs=decode_jobs('asan', gens=('pair',)), level='exploration', technique='metamorphic relation load(x||y) == load(x) over enumerated x and y; sequence splitting',
     rule='PAIR: x = every E2 item (<=2 nodes quick, <=3 thorough) and every E2p item, decoded alone in an exactly |x|-byte block and again followed by y in {each of the 256 bytes, 14 small items, garbage, a 2^64-1 string head}; trees (observed via getters) and read must agree. SEQ: concatenations of 2..6 items split by repeated cbor_load at offset += read must give the same trees as the items alone and end exactly at the buffer end. Non-trivial = y non-empty and |x|>=2 (PAIR) / >=2 items (SEQ).',
-    assumptions=COMMON_ASSUME[:1] + COMMON_ASSUME[2:],
-    level_text='Exploration by a metamorphic relation (no reference model needed): complete over the enumerated x and the listed y; sequences are sampled.',
+    assumptions=COMMON_ASSUME[:1] + COMMON_ASSUME[2:] + ['the reference classifier is consulted only to tell whether x is a complete item when x alone fails to decode (then x||y must fail too)'],
+    level_text='Exploration by a metamorphic relation (the reference model only guards one corner): complete over the enumerated x and the listed y; sequences are sampled.',
     level_note='x ranges over enumerated well-formed items only; y over single bytes, small items and a few garbage strings, not all strings.')
 
 def stream_jobs_for(gens):
